@@ -24,8 +24,7 @@ open Nitime.C08.Props
 #print axioms coherency_bavg_le_one
 #print axioms partial_closed_form
 #print axioms partial_eq_inverse
-#print axioms partial_current_counterexample
-#print axioms partial_intended_on_witness
+#print axioms partial_on_witness
 #print axioms gram_partial_ineq
 #print axioms partial_le_one
 #print axioms mt_coherence_le_one
